@@ -819,6 +819,8 @@ class Engine:
         out = []
         for s, v in self.ev(stmt.value, st):
             if isinstance(v, Raise): out.append((s, v)); continue
+            if len(stmt.targets) > 1 and isinstance(v.s, S) and v.s.is_list:
+                raise Unsupported(f'one list assigned to several targets @{stmt.lineno} (the targets would share the list object)')
             states = [(s, FALL)]
             for t in reversed(stmt.targets) if len(stmt.targets) > 1 else stmt.targets:     # a = b = v assigns left to right; order irrelevant for the supported targets
                 nxt = []
@@ -827,6 +829,10 @@ class Engine:
                 states = nxt
             out += states
         return out
+
+    def ex_AnnAssign(self, stmt, st):
+        if stmt.value is None: return [(st, FALL)]          # a bare annotation
+        return self.ex_Assign(ast.copy_location(ast.Assign(targets=[stmt.target], value=stmt.value), stmt), st)
 
     def ex_AugAssign(self, stmt, st):
         for p in self.plugins:
